@@ -537,6 +537,78 @@ func c04Accessor(c *Ctx, r *Report, an *Analysis, fr *Frame, m *ssa.Function, ca
 		return
 	}
 	r.instance("R4.3", 1)
+	// every success return hands out a value computed from the bytes: a feasible return with a nil
+	// error and a constant result (a switch over the order constants without a default, a missing
+	// else) answers 0 for wire bytes it never looked at
+	for _, rs := range fr.returns {
+		if len(rs.state) == 0 || len(rs.vals) != 2 {
+			continue
+		}
+		nf := fr.nilness(rs.vals[1])
+		if !(nf.kind == fConst && nf.b) {
+			continue
+		}
+		constant := false
+		switch v := rs.vals[0].(type) {
+		case AInt:
+			constant = len(v.a.terms) == 0 && len(v.conds) == 0 && v.fallback == nil
+		case AFloat:
+			constant = len(v.num.a.terms) == 0 && len(v.num.conds) == 0 && v.num.fallback == nil
+		}
+		if constant {
+			r.fail("R4.3", id, "a success return hands out a constant instead of a value decoded from the addressed registers", c.pos(rs.instr.Pos()), truncate(rs.state.String(), 200), "constant-success")
+		}
+	}
+	// the same through a merge: the result of a success return is a phi one of whose inputs is a
+	// constant (the variable's zero value survives on a path where no case decoded anything)
+	for _, b := range m.Blocks {
+		if len(b.Instrs) == 0 {
+			continue
+		}
+		ret, ok := b.Instrs[len(b.Instrs)-1].(*ssa.Return)
+		if !ok || len(ret.Results) != 2 {
+			continue
+		}
+		if k, isK := ret.Results[1].(*ssa.Const); !isK || !k.IsNil() {
+			continue
+		}
+		v := ret.Results[0]
+		for {
+			if cv, ok := v.(*ssa.Convert); ok {
+				v = cv.X
+				continue
+			}
+			if ct, ok := v.(*ssa.ChangeType); ok {
+				v = ct.X
+				continue
+			}
+			break
+		}
+		seenPhi := map[*ssa.Phi]bool{}
+		var constEdge func(v ssa.Value) bool
+		constEdge = func(v ssa.Value) bool {
+			ph, ok := v.(*ssa.Phi)
+			if !ok || seenPhi[ph] {
+				return false
+			}
+			seenPhi[ph] = true
+			if blockReaches(ph.Block(), ph.Block()) {
+				return false // an accumulator of a composing loop starts from its constant
+			}
+			for i, e := range ph.Edges {
+				if _, isK := e.(*ssa.Const); isK && len(fr.blockIn[ph.Block().Preds[i].Index]) > 0 {
+					return true
+				}
+				if constEdge(e) {
+					return true
+				}
+			}
+			return false
+		}
+		if constEdge(v) {
+			r.fail("R4.3", id, "on some path the value of a success return is a constant, not a value decoded from the addressed registers (no case of the order selection applied)", c.pos(ret.Pos()), "", "constant-success")
+		}
+	}
 	nGetter, nDecode := 0, 0
 	var usedOrder *Aff
 	// an accessor whose getter takes no order (one register) may still select the order itself:
